@@ -190,7 +190,7 @@ func rulesC03(p *Prog, r *Report) {
 		// the compared total must include the amount about to be minted: it derives from the
 		// request (or a conversion of it) and from the product's minted statistics
 		hasMsg, hasStat := false, false
-		for _, o := range p.DeepOrigins(v) {
+		for _, o := range p.UpOrigins(p.DeepOrigins(v), 0) {
 			if o.Kind == "param" {
 				if pr, ok := o.Val.(*ssa.Parameter); ok && msgParam(pr.Parent()) == pr {
 					hasMsg = true
